@@ -1,5 +1,6 @@
 (* C08 — One-shot and countdown jobs fire exactly when promised (statements only). *)
-From EAS Require Import Base Sched SchedInv SchedApi SchedProps SchedLog.
+From EAS Require Import Base Sched SchedInv SchedApi SchedProps SchedLog
+                        SchedExact SchedExact2 SchedExact3 SchedExact4.
 
 Theorem C08_invariant_reachable :
   forall E fuel hs t0 en ops s rs,
@@ -20,3 +21,97 @@ Theorem C08_on_time_after_wake :
   forall E fuel hs s s', Inv s -> step_op E fuel hs s OWake = (s', Done) -> enabled s' = true -> NoDue s'.
 Proof. exact wake_runs_due. Qed.
 Print Assumptions C08_on_time_after_wake.
+
+(* ---- additions for props/C08.v -------------------------------------------------------------------
+   change the import line to:
+   From EAS Require Import Base Sched SchedInv SchedApi SchedProps SchedLog
+                           SchedExact SchedExact2 SchedExact3 SchedExact4.
+   [op_typed] / [ops_typed]: reset / set_countdown are only used on countdown jobs, resume only on recurring
+   jobs, pause not on one-shot jobs - what the control classes of the library offer.                   *)
+
+(* in every reachable state the announced time of a one-shot job is its requested instant (and countdown
+   values are positive) *)
+Theorem C08_once_announces_requested_instant :
+  forall E, (forall j k t, exists v, prod E j k t = Ok v /\ t < v) ->
+  forall fuel hs t0 en ops s rs,
+    ops_typed E fuel hs (init t0 en) ops -> run E fuel hs (init t0 en) ops = (s, rs) -> ~ In NoFuel rs ->
+    Inv s /\
+    (forall j a, jkind (jobs s j) = KOnce -> jnext (jobs s j) = Some a -> a = jexec_t (jobs s j)) /\
+    (forall j, jkind (jobs s j) = KCountdown -> 0 < jsecs (jobs s j)).
+Proof. exact exact_reachable. Qed.
+Print Assumptions C08_once_announces_requested_instant.
+
+(* every start of a one-shot job is the start announced for its requested instant, not before that instant, and
+   afterwards the job is finished *)
+Theorem C08_once_start_exact :
+  forall E, (forall j k t, exists v, prod E j k t = Ok v /\ t < v) ->
+  forall fuel hs s o s' r j t a oi,
+    Inv s -> ExactInv s -> op_typed s o -> step_op E fuel hs s o = (s', r) -> r <> NoFuel ->
+    In (EExec j t a oi) (new_events s s') -> jkind (jobs s' j) = KOnce ->
+    a = jexec_t (jobs s' j) /\ a <= t /\ t = now s /\ jstatus (jobs s' j) = Finished /\ jnext (jobs s' j) = None.
+Proof. exact once_start_exact. Qed.
+Print Assumptions C08_once_start_exact.
+
+(* ... and in every history it is started at most once *)
+Theorem C08_once_at_most_once :
+  forall E, (forall j k t, exists v, prod E j k t = Ok v /\ t < v) ->
+  forall fuel hs t0 en ops s rs j,
+    ops_typed E fuel hs (init t0 en) ops -> run E fuel hs (init t0 en) ops = (s, rs) -> ~ In NoFuel rs ->
+    (j < njobs s)%nat -> jkind (jobs s j) = KOnce ->
+    (count_exec j (log s) <= 1)%nat /\ (count_exec j (log s) = 1%nat -> jstatus (jobs s j) = Finished).
+Proof. exact once_at_most_once. Qed.
+Print Assumptions C08_once_at_most_once.
+
+(* every start of a countdown job is the start for the next-run time it had announced before the operation
+   (reset() itself never starts the job), and afterwards the job is paused with no next-run time *)
+Theorem C08_countdown_start_exact :
+  forall E, (forall j k t, exists v, prod E j k t = Ok v /\ t < v) ->
+  forall fuel hs s o s' r j t a oi,
+    Inv s -> ExactInv s -> op_typed s o -> step_op E fuel hs s o = (s', r) -> r <> NoFuel ->
+    In (EExec j t a oi) (new_events s s') -> jkind (jobs s' j) = KCountdown ->
+    jstatus (jobs s j) = Running /\ jnext (jobs s j) = Some a /\ a <= t /\ t = now s /\
+    jstatus (jobs s' j) = Paused /\ jnext (jobs s' j) = None /\ jkind (jobs s j) = KCountdown.
+Proof. exact countdown_start_exact. Qed.
+Print Assumptions C08_countdown_start_exact.
+
+(* the next-run time of a countdown job is set by its own reset() only, to (instant of the reset + countdown value
+   in force at that instant); every other operation (also stop, cancel, set_countdown) keeps or clears it *)
+Theorem C08_countdown_next_only_by_reset :
+  forall E, (forall j k t, exists v, prod E j k t = Ok v /\ t < v) ->
+  forall fuel hs s o s' r j a,
+    Inv s -> op_typed s o -> step_op E fuel hs s o = (s', r) -> r <> NoFuel ->
+    jkind (jobs s j) = KCountdown -> ~ (is_creation o /\ j = njobs s) ->
+    jnext (jobs s' j) = Some a ->
+    jnext (jobs s j) = Some a \/ (o = OReset j /\ a = now s + jsecs (jobs s j)).
+Proof. exact countdown_next_only_by_reset. Qed.
+Print Assumptions C08_countdown_next_only_by_reset.
+
+(* never without a preceding reset, at most once per reset: (starts so far) + (1 if a start is pending) is bounded
+   by the number of reset() calls on the job, in every history *)
+Theorem C08_no_exec_without_reset :
+  forall E, (forall j k t, exists v, prod E j k t = Ok v /\ t < v) ->
+  forall fuel hs t0 en ops s rs j,
+    ops_typed E fuel hs (init t0 en) ops -> run E fuel hs (init t0 en) ops = (s, rs) -> ~ In NoFuel rs ->
+    (j < njobs s)%nat -> jkind (jobs s j) = KCountdown ->
+    (count_exec j (log s) + pend s j <= resets j ops)%nat.
+Proof. exact no_exec_without_reset. Qed.
+Print Assumptions C08_no_exec_without_reset.
+
+(* kind, requested instant and key of an existing job never change *)
+Theorem C08_job_identity_stable :
+  forall E, (forall j k t, exists v, prod E j k t = Ok v /\ t < v) ->
+  forall fuel hs s o s' r j,
+    Inv s -> step_op E fuel hs s o = (s', r) -> r <> NoFuel -> ~ (is_creation o /\ j = njobs s) ->
+    jkind (jobs s' j) = jkind (jobs s j) /\ jexec_t (jobs s' j) = jexec_t (jobs s j) /\
+    jkey (jobs s' j) = jkey (jobs s j).
+Proof. exact job_identity_stable. Qed.
+Print Assumptions C08_job_identity_stable.
+
+(* a finished job (a one-shot job that has run, a cancelled job) never starts again *)
+Theorem C08_finished_never_restarts :
+  forall E, (forall j k t, exists v, prod E j k t = Ok v /\ t < v) ->
+  forall fuel hs ops s s' rs j, Inv s -> jstatus (jobs s j) = Finished -> (j < njobs s)%nat ->
+    run E fuel hs s ops = (s', rs) -> ~ In NoFuel rs ->
+    jstatus (jobs s' j) = Finished /\ count_exec j (log s') = count_exec j (log s).
+Proof. exact finished_never_restarts. Qed.
+Print Assumptions C08_finished_never_restarts.
